@@ -1,9 +1,10 @@
 """G -> X -> V pipeline of property C12 (undo / redo), engine `undo`.
 
 G  : spec/MC_Undo.tla enumerates PROGRAMS (tracked edits, ticks / stop, every undo/redo word, foreign local edits, remote
-     edits with delayed delivery) per tracked root kind; this module adds configuration, an out-of-scope prologue, the
-     closing deliveries to the observers 8 / 9 and the closing syncs.  Seeded deep programs (long random words over the
-     same alphabet, three tracked scopes incl. two roots) complement the enumeration.
+     edits with delayed delivery) per tracked root kind (text, array, map, XML fragment); this module adds configuration,
+     an out-of-scope prologue, for the XML groups `p*` the prepared content of another origin, the closing deliveries to
+     the observers 8 / 9 and the closing syncs.  Seeded deep programs (long random words over the same alphabet, tracked
+     scopes incl. two roots; a separate family `deepx` for XML scopes) complement the enumeration.
 X  : harness extension harness/src/ext/undo.rs through `yx yata-run --repeat 5` (the library is hash-order
      nondeterministic in undo: every behaviour is executed five times, differing outcomes give a `nondet` event).
      The schedule file is split and executed by several yx processes.
@@ -24,7 +25,8 @@ ENGINE_TEXT = "TLA+/TLC program enumeration + design invariants (MC_Undo), progr
 TRACE = ("Trace_Undo", "Trace_Undo.cfg")
 REPEAT = 5
 REPLAY = ("yx", lambda s, t: ["yata-run", "--in", s, "--out", t, "--seed", str(vlib.seed()), "--repeat", str(REPEAT)], TRACE[0], TRACE[1])
-XPAR = 10
+PAR = max(1, int(os.environ.get("VERIF_PAR", "10")))      # upper bound of parallel processes / TLC workers (shared machines)
+XPAR = min(10, PAR)
 
 # name -> (G config, kind, {tier: sample size or None = all})
 G_GROUPS = {
@@ -46,29 +48,100 @@ G_GROUPS = {
     "g2t": ("G_undo_g2t.cfg", "t", {"thorough": 10000}),
     "g2a": ("G_undo_g2a.cfg", "a", {"thorough": 10000}),
     "g2m": ("G_undo_g2m.cfg", "m", {"thorough": 10000}),
+    # XML scope (root fragment x): from the empty fragment (c*, f*, g*), with content of another origin prepared before the
+    # manager starts (p*: trimmed edit menu), deep histories of ONE attribute of one element (xk*)
+    "c3x": ("G_undo_c3x.cfg", "x", {"quick": 400, "thorough": 6000}),
+    "p2x": ("G_undo_p2x.cfg", "xp", {"quick": 250, "thorough": 4000}),
+    "f2x": ("G_undo_f2x.cfg", "x", {"quick": 400, "thorough": 4000}),
+    "xk4": ("G_undo_xk4.cfg", "x", {"quick": 200, "thorough": 3000}),
+    "pf2x": ("G_undo_pf2x.cfg", "xp", {"thorough": 3000}),
+    "p3x": ("G_undo_p3x.cfg", "xp", {"thorough": 4000}),
+    "c4x": ("G_undo_c4x.cfg", "x", {"thorough": 4000}),
+    "f3x": ("G_undo_f3x.cfg", "x", {"thorough": 3000}),
+    "g2x": ("G_undo_g2x.cfg", "x", {"thorough": 3000}),
+    "xk5": ("G_undo_xk5.cfg", "x", {"thorough": 3000}),
+    # "wiggle" shapes (MC_Undo constant Shape): prepared content, every edit its own capture step, then U^p (R U)^j U U R R:
+    # an outer step is undone / redone / undone ... before older steps are undone (content re-created several times)
+    "w2t": ("G_undo_w2t.cfg", "wt", {"quick": None, "thorough": None}),
+    "w2a": ("G_undo_w2a.cfg", "wa", {"quick": None, "thorough": None}),
+    "w2m": ("G_undo_w2m.cfg", "wm", {"quick": None, "thorough": None}),
+    "w2x": ("G_undo_w2x.cfg", "wx", {"quick": None, "thorough": None}),
+    # flat wiggles from the empty root: 3 edits in 3 capture steps (e.g. ins a | ins b | del both), then U R U U U R R
+    "wz3t": ("G_undo_wz3t.cfg", "t", {"quick": None, "thorough": None}),
+    "wz3a": ("G_undo_wz3a.cfg", "a", {"quick": None, "thorough": None}),
+    "wz3m": ("G_undo_wz3m.cfg", "m", {"thorough": None}),
+    "wf1x": ("G_undo_wf1x.cfg", "wx", {"quick": 100, "thorough": 1500}),
+    "wf2x": ("G_undo_wf2x.cfg", "wx", {"thorough": 2000}),
+    "wf2t": ("G_undo_wf2t.cfg", "wt", {"thorough": 1000}),
+    "wf2a": ("G_undo_wf2a.cfg", "wa", {"thorough": 1000}),
+    "wf2m": ("G_undo_wf2m.cfg", "wm", {"thorough": 1000}),
+    "w3t": ("G_undo_w3t.cfg", "wt", {"thorough": 1500}),
+    "w3a": ("G_undo_w3a.cfg", "wa", {"thorough": 1500}),
+    "w3m": ("G_undo_w3m.cfg", "wm", {"thorough": 1500}),
+    "w3x": ("G_undo_w3x.cfg", "wx", {"thorough": 2500}),
+}
+XML_GROUPS = [g for g in G_GROUPS if G_GROUPS[g][1] in ("x", "xp", "wx")]
+# multi-operation transactions: programs of the base group in which every run of >= 2 consecutive tracked edits (no tick
+# between them: one capture step anyway) is ONE transaction (step `umulti`); in every second variant the transaction also edits
+# a root outside the scope.  name -> (base group, {tier: sample size})
+MULTI_GROUPS = {
+    "mt": ("c3t", {"quick": 60, "thorough": 1000}),
+    "ma": ("c3a", {"quick": 60, "thorough": 1000}),
+    "mm": ("c3m", {"quick": 60, "thorough": 1000}),
+    "mx": ("c3x", {"quick": 60, "thorough": 1000}),
 }
 TIERS = {
-    "quick": {"gen": ["c3t", "c3a", "c3m", "k4", "f2t", "f2a", "f2m"], "deep": 2, "deep_n": 400},
-    "thorough": {"gen": list(G_GROUPS), "deep": 12, "deep_n": 1500},
+    # "combined": several small groups share ONE X + V run (the fixed cost of a TLC start is paid once)
+    "quick": {"gen": ["c3t", "c3a", "c3m", "k4", "f2t", "f2a", "f2m"],
+              "combined": {"xml": ["c3x", "p2x", "f2x", "xk4", "deepx00"],
+                           "wiggle": ["w2t", "w2a", "w2m", "w2x", "wz3t", "wz3a", "wf1x"],
+                           "multi": ["mt", "ma", "mm", "mx"]},
+              "deep": 2, "deep_n": 400, "deepx": 0, "deepx_n": 100},
+    "thorough": {"gen": [g for g in G_GROUPS if g[0] != "w"], "combined": {"wiggle": [g for g in G_GROUPS if g[0] == "w"],
+                                                                              "multi": list(MULTI_GROUPS)},
+                 "deep": 12, "deep_n": 1500, "deepx": 4, "deepx_n": 1000},
 }
 
-OTHER = {"t": "m", "a": "t", "m": "a"}
+OTHER = {"t": "m", "a": "t", "m": "a", "x": "m"}
+
+# kind "xp": content created in the XML fragment by an UNTRACKED origin before the first tracked edit (MC_Undo constant Pre):
+# X[<e.. id=..>[T("c")], T("cc")]
+XML_PRE = [
+    {"a": "uop", "op": "ins", "r": 1, "p": ["x"], "i": 0, "n": 1, "k": "E", "key": "", "o": ""},
+    {"a": "uop", "op": "set", "r": 1, "p": ["x", "#e0"], "i": 0, "n": 1, "k": "u", "key": "id", "o": ""},
+    {"a": "uop", "op": "ins", "r": 1, "p": ["x", "#e0"], "i": 0, "n": 1, "k": "X", "key": "", "o": ""},
+    {"a": "uop", "op": "ins", "r": 1, "p": ["x"], "i": 1, "n": 2, "k": "X", "key": "", "o": ""},
+]
 
 
 def _h(*a):
     return int(hashlib.sha256(("|".join(str(x) for x in a)).encode()).hexdigest()[:12], 16)
 
 
+def _u(op, p, i=0, n=1, k="u", key=""):
+    return {"a": "uop", "op": op, "r": 1, "p": p, "i": i, "n": n, "k": k, "key": key, "o": ""}
+
+
+# kinds "wt" / "wa" / "wm" / "wx": content prepared for the wiggle shapes (C0 of MC_Undo): "ccc" / [u, {k1:u}, u] /
+# {k1:[u,u], k2:u} / the XML content above; created by the tracked origin (one capture step) or by another origin
+WIGGLE_PRE = {
+    "t": [_u("ins", ["t"], 0, 3)],
+    "a": [_u("ins", ["a"], 0, 1), _u("ins", ["a"], 1, 1, k="M"), _u("ins", ["a"], 2, 1)],
+    "m": [_u("set", ["m"], key="k1", k="A"), _u("ins", ["m", "k1"], 1, 1), _u("set", ["m"], key="k2")],
+    "x": XML_PRE,
+}
+
+
 def _prologue(kind):
     """an edit of the TRACKED origin on a root outside the scope: must neither be captured nor ever be touched"""
-    o = OTHER[kind]
+    o = OTHER[kind[0]]
     if o == "m":
         return {"a": "uop", "op": "set", "r": 1, "p": ["m"], "key": "k9", "k": "u", "i": 0, "n": 1, "o": "U"}
     return {"a": "uop", "op": "ins", "r": 1, "p": [o], "i": 0, "n": 2 if o == "t" else 1, "k": "u", "key": "", "o": "U"}
 
 
 def _closing(steps, idx):
-    n = sum(1 for s in steps if s["a"] in ("uop", "undo", "redo"))
+    n = sum(1 for s in steps if s["a"] in ("uop", "umulti", "undo", "redo"))      # every such step takes one update slot
     out = list(steps)
     for i in range(1, n + 1):
         out.append({"a": "dlv", "r": 8, "u": [i], "enc": "v1" if (i + idx) % 2 else "v2", "shape": "flat", "diff": False})
@@ -79,19 +152,28 @@ def _closing(steps, idx):
 
 
 def _cfg(idx, scope):
-    return {"replicas": [{"id": 1, "gc": True}, {"id": 2, "gc": idx % 2 == 0}, {"id": 8, "gc": True}, {"id": 9, "gc": False}],
-            "followers": idx % 4 == 0, "offset": "utf16" if idx % 2 == 0 else "bytes", "ext": ["undo"],
-            "undo": {"r": 1, "scope": scope, "origin": "U", "timeout": 500}}
+    c = {"replicas": [{"id": 1, "gc": True}, {"id": 2, "gc": idx % 2 == 0}, {"id": 8, "gc": True}, {"id": 9, "gc": False}],
+         "followers": idx % 4 == 0, "offset": "utf16" if idx % 2 == 0 else "bytes", "ext": ["undo"],
+         "undo": {"r": 1, "scope": scope, "origin": "U", "timeout": 500}}
+    if "x" in scope:
+        c["xml"] = True           # every replica declares the XML fragment root
+    return c
 
 
 def make_schedules(hists, gname, kind):
     out = []
+    wiggle = kind[0] == "w"
+    kind = kind[1] if wiggle else kind
+    pre0 = WIGGLE_PRE[kind] if wiggle else XML_PRE if kind == "xp" else []
+    kind = kind[0]
     for idx, h in enumerate(hists):
-        steps = [_prologue(kind), {"a": "tick", "ms": 600}]
+        # wiggle: the prepared content is of the tracked origin (captured, the bottom of the undo stack) in every second behaviour
+        pre = [dict(s, o="U" if wiggle and idx % 2 == 1 else "") for s in pre0]
+        steps = pre + [_prologue(kind), {"a": "tick", "ms": 600}]
         for s in h:
             s = dict(s)
             if s["a"] == "dlv":
-                s["u"] = [x + 1 for x in s["u"]]      # the prologue took slot 1
+                s["u"] = [x + 1 + len(pre) for x in s["u"]]      # the prepared content and the prologue took the first slots
             steps.append(s)
         # every fourth behaviour tracks the prologue's root as well (two tracked types, the prologue becomes a step)
         scope = [kind, OTHER[kind]] if idx % 4 == 3 else [kind]
@@ -99,10 +181,114 @@ def make_schedules(hists, gname, kind):
     return out
 
 
-def deep_schedules(ix, n, seed):
-    """seeded long programs: addresses are resolved by X against the current state, so any word is executable"""
-    rnd = random.Random(_h(seed, "deep", ix))
-    scopes = [["t"], ["a"], ["m"], ["t", "m"], ["a", "m"], ["t", "a", "m"]]
+def _xml_edit(rnd, r, o):
+    """one random edit of the XML fragment: root children, an element (attributes, children), a text node (characters,
+    formatting), nodes nested in an element"""
+    i = rnd.randrange(4)
+    y = rnd.random()
+    if y < 0.30:
+        p = ["x"]
+    elif y < 0.55:
+        p = ["x", "#e%d" % rnd.randrange(2)]
+    elif y < 0.80:
+        p = ["x", "#t%d" % rnd.randrange(2)]
+    elif y < 0.90:
+        p = ["x", "#e%d" % rnd.randrange(2), "#t%d" % rnd.randrange(2)]
+    else:
+        p = ["x", "#e%d" % rnd.randrange(2), "#e%d" % rnd.randrange(2)]
+    if p[-1].startswith("#t"):
+        op = rnd.choice(["ins", "ins", "del", "fmt", "fmt"])
+        return {"a": "uop", "op": op, "r": r, "p": p, "i": i, "n": rnd.choice([1, 1, 2]), "k": "u", "key": "b" if op == "fmt" else "", "o": o}
+    if len(p) == 1 or rnd.random() < 0.5:
+        op = rnd.choice(["ins", "ins", "del"])
+        return {"a": "uop", "op": op, "r": r, "p": p, "i": i, "n": rnd.choice([1, 1, 2]), "k": rnd.choice(["E", "X"]) if op == "ins" else "u", "key": "", "o": o}
+    return {"a": "uop", "op": rnd.choice(["set", "set", "rem"]), "r": r, "p": p, "i": 0, "n": 1, "k": "u", "key": rnd.choice(["id", "id", "cl"]), "o": o}
+
+
+def _mop(s):
+    return {k: s[k] for k in ("op", "p", "i", "n", "k", "key") if k in s}
+
+
+def _outside(kind, j):
+    """an operation on a root outside the scope (alternating insertion / removal)"""
+    o = OTHER[kind]
+    if o == "m":
+        return {"op": "set" if j % 2 == 0 else "rem", "p": ["m"], "i": 0, "n": 1, "k": "u", "key": "k9"}
+    return {"op": "ins" if j % 2 == 0 else "del", "p": [o], "i": 0, "n": 1, "k": "u", "key": ""}
+
+
+def multi_variant(h, kind, mix):
+    """the history with every run of >= 2 consecutive tracked edits merged into one transaction; None if there is no such run"""
+    out, run, merged = [], [], 0
+
+    def flush():
+        nonlocal run, merged
+        if len(run) >= 2:
+            ops = [_mop(s) for s in run]
+            if mix:
+                ops.insert((merged + 1) % (len(ops) + 1), _outside(kind, merged))
+            out.append({"a": "umulti", "r": 1, "o": "U", "ops": ops})
+            merged += 1
+        else:
+            out.extend(run)
+        run = []
+
+    for s in h:
+        if s["a"] == "uop" and s.get("o") == "U" and s["r"] == 1:
+            run.append(s)
+        else:
+            flush()
+            out.append(s)
+    flush()
+    return out if merged else None
+
+
+def multi_scheds(gname, tier, workdir):
+    base, samples = MULTI_GROUPS[gname]
+    kind = G_GROUPS[base][1]
+    hists, gstats = gen_hists(base, tier, workdir)
+    vs = []
+    for i, h in enumerate(hists):
+        if any(s["a"] == "dlv" for s in h):
+            continue                               # slot numbers of remote deliveries would have to be renumbered
+        v = multi_variant(h, kind, i % 2 == 1)
+        if v:
+            vs.append(v)
+    n = samples.get(tier)
+    if n and len(vs) > n:
+        rnd = random.Random(_h(vlib.seed(), gname))
+        vs = [vs[i] for i in sorted(rnd.sample(range(len(vs)), n))]
+    return make_schedules(vs, gname, kind)
+
+
+def run_multi(gname, tier, workdir):
+    return run_scheds(gname, multi_scheds(gname, tier, workdir), tier, workdir)
+
+
+def run_combined(cname, members, tier, workdir):
+    """the schedules of several groups (G groups, multi groups, `deepxNN`) in ONE X + V run; r["parts"] = per member
+    {"n": schedules, "g": G statistics or None}"""
+    scheds, parts = [], {}
+    for g in members:
+        if g in MULTI_GROUPS:
+            sc, gs = multi_scheds(g, tier, workdir), None
+        elif g.startswith("deepx"):
+            sc, gs = deep_schedules(int(g[5:]), TIERS[tier]["deepx_n"], vlib.seed(), xml=True), None
+        else:
+            hists, gs = gen_hists(g, tier, workdir)
+            sc = make_schedules(hists, g, G_GROUPS[g][1])
+        parts[g] = {"n": len(sc), "g": gs}
+        scheds += sc
+    r = run_scheds("%s-%s" % (cname, hashlib.sha256(",".join(members).encode()).hexdigest()[:8]), scheds, tier, workdir)
+    r["parts"] = parts
+    return r
+
+
+def deep_schedules(ix, n, seed, xml=False):
+    """seeded long programs: addresses are resolved by X against the current state, so any word is executable.
+    xml: the XML fragment is (one of) the tracked root(s); a separate seeded family (the draws of the other one are unchanged)"""
+    rnd = random.Random(_h(seed, "deepx" if xml else "deep", ix))
+    scopes = [["x"], ["x"], ["x", "m"], ["t", "x"]] if xml else [["t"], ["a"], ["m"], ["t", "m"], ["a", "m"], ["t", "a", "m"]]
     out = []
     for b in range(n):
         scope = scopes[rnd.randrange(len(scopes))]
@@ -112,6 +298,8 @@ def deep_schedules(ix, n, seed):
 
         def edit(r, o):
             root = rnd.choice(scope) if rnd.random() < 0.85 else rnd.choice(["t", "a", "m"])
+            if root == "x":
+                return _xml_edit(rnd, r, o)
             i = rnd.randrange(4)
             if root == "t":
                 return {"a": "uop", "op": rnd.choice(["ins", "ins", "del"]), "r": r, "p": ["t"], "i": i, "n": rnd.choice([1, 1, 2]), "k": "u", "key": "", "o": o}
@@ -128,6 +316,16 @@ def deep_schedules(ix, n, seed):
             return {"a": "uop", "op": rnd.choice(["set", "set", "rem"]), "r": r, "p": ["m"], "key": key, "k": rnd.choice(["u", "u", "A", "M"]),
                     "i": 0, "n": 1, "o": o}
 
+        # thresholds of tracked edit / tick / undo / redo (rest: stop) among the manager's own activity
+        te, tt, tu, tr = (0.55, 0.68, 0.84, 0.96) if xml else (0.45, 0.60, 0.80, 0.96)
+        if xml:
+            # the fragment starts with some structure (tracked: captured as one or several steps; or of another origin)
+            o = rnd.choice(["U", "U", ""])
+            for st in XML_PRE[:rnd.choice([2, 3, 4, 4])]:
+                steps.append(dict(st, o=o))
+                slots += 1
+                if o == "U" and rnd.random() < 0.5:
+                    steps.append({"a": "tick", "ms": 600})
         for _ in range(nops):
             x = rnd.random()
             if x < pf:
@@ -143,22 +341,27 @@ def deep_schedules(ix, n, seed):
                     inflight.append(slots)
                 elif inflight:
                     steps.append({"a": "dlv", "r": 1, "u": [inflight.pop(rnd.randrange(len(inflight)))]})
-            elif x < pf + 0.45 * (1 - pf):
-                steps.append(edit(1, "U"))
+            elif x < pf + te * (1 - pf):
+                if xml and rnd.random() < 0.15:
+                    # several operations in ONE tracked transaction (now and then one of them outside the scope)
+                    ops = [_mop(edit(1, "U")) for _ in range(rnd.choice([2, 2, 3]))]
+                    steps.append({"a": "umulti", "r": 1, "o": "U", "ops": ops})
+                else:
+                    steps.append(edit(1, "U"))
                 slots += 1
-            elif x < pf + 0.60 * (1 - pf):
+            elif x < pf + tt * (1 - pf):
                 steps.append({"a": "tick", "ms": rnd.choice([600, 600, 200])})
-            elif x < pf + 0.80 * (1 - pf):
+            elif x < pf + tu * (1 - pf):
                 steps.append({"a": "undo", "r": 1})
                 slots += 1
-            elif x < pf + 0.96 * (1 - pf):
+            elif x < pf + tr * (1 - pf):
                 steps.append({"a": "redo", "r": 1})
                 slots += 1
             else:
                 steps.append({"a": "ustop", "r": 1})
         for s in inflight:
             steps.append({"a": "dlv", "r": 1, "u": [s]})
-        out.append({"bid": "deep%02d-%05d" % (ix, b), "cfg": _cfg(b, scope), "steps": _closing(steps, b)})
+        out.append({"bid": "deep%s%02d-%05d" % ("x" if xml else "", ix, b), "cfg": _cfg(b, scope), "steps": _closing(steps, b)})
     return out
 
 
@@ -166,7 +369,7 @@ def nontrivial(s):
     """a behaviour is non-trivial when an undo or redo call follows at least one captured edit"""
     seen = False
     for st in s["steps"]:
-        if st["a"] == "uop" and st.get("o") == "U" and st["r"] == 1:
+        if st["a"] in ("uop", "umulti") and st.get("o") == "U" and st["r"] == 1:
             seen = True
         if st["a"] in ("undo", "redo") and seen:
             return True
@@ -183,7 +386,7 @@ def gen_hists(gname, tier, workdir):
             d = json.load(f)
         return d["hists"], d["stats"]
     cfg, kind, samples = G_GROUPS[gname]
-    g = vlib.generate("MC_Undo", cfg, os.path.join(workdir, gname, "g"))
+    g = vlib.generate("MC_Undo", cfg, os.path.join(workdir, gname, "g"), workers=min(10, PAR))
     hists = g["replay"]
     total = len(hists)
     hists.sort(key=lambda h: json.dumps(h, sort_keys=True))
@@ -287,12 +490,15 @@ def run_x_parallel(scheds, wd):
 
 def _slim(e):
     """what known-finding patterns may look at (tools/patterns.py): the C12-relevant part of an event"""
-    out = {k: e[k] for k in ("k", "r", "t", "call", "ret", "us", "rs", "uv", "uc", "stk", "outcome", "u") if k in e}
+    out = {k: e[k] for k in ("k", "r", "t", "call", "ret", "us", "rs", "uv", "uc", "stk", "alias", "outcome", "u") if k in e}
     if "upd" in e:
         out["upd"] = {"ins": [{k: u[k] for k in ("id", "o", "ro", "cont", "sub", "par", "kind")} for u in e["upd"].get("ins", [])],
                       "del": e["upd"].get("del", [])}
     if "obs" in e and e.get("k") == "loc":
         out["obs"] = {"lst": e["obs"].get("lst", {}), "dead": e["obs"].get("dead", []), "gone": e["obs"].get("gone", [])}
+    if e.get("k") == "nondet" and isinstance(e.get("alt"), dict):
+        out["at"] = e.get("at")
+        out["alt"] = _slim(e["alt"])           # the first differing event as the OTHER execution recorded it
     return out
 
 
@@ -311,7 +517,7 @@ def run_scheds(gname, scheds, tier, workdir, gstats=None):
     t0 = time.time()
     tfile, xs = run_x_parallel(scheds, wd)
     tv = time.time()
-    merged = vlib.validate(TRACE[0], TRACE[1], tfile, os.path.join(wd, "v"), parallel=10)
+    merged = vlib.validate(TRACE[0], TRACE[1], tfile, os.path.join(wd, "v"), parallel=min(10, PAR))
     by_bid = {s["bid"]: s for s in scheds}
     bad = {}
     for bid, pred, line in merged["viol"]:
@@ -358,6 +564,10 @@ def run_deep(ix, tier, workdir):
     return run_scheds("deep%02d" % ix, deep_schedules(ix, TIERS[tier]["deep_n"], vlib.seed()), tier, workdir)
 
 
+def run_deepx(ix, tier, workdir):
+    return run_scheds("deepx%02d" % ix, deep_schedules(ix, TIERS[tier]["deepx_n"], vlib.seed(), xml=True), tier, workdir)
+
+
 # ------------------------------------------------------------------------------------------------
 # plugin interface
 
@@ -369,7 +579,15 @@ def check(prop, tier):
     ev = vlib.Evidence(prop, tier)
     bt = vlib.build_harness("yx")
     wd = os.path.join(vlib.WORK, "run-%s" % prop)
-    plan = TIERS[tier]
+    plan = dict(TIERS[tier])
+    only = os.environ.get("VERIF_ONLY_GROUPS")      # development aid (mutant triage): e.g. "c3x,p2x,deepx00"; never set by registered checks
+    if only:
+        only = set(only.split(","))
+        plan["gen"] = [g for g in plan["gen"] if g in only]
+        plan["multi"] = [g for g in plan.get("multi", []) if g in only]
+        plan["combined"] = {c: [g for g in ms if g in only] for c, ms in plan.get("combined", {}).items()}
+        plan["deep_ix"] = [i for i in range(plan["deep"]) if "deep%02d" % i in only]
+        plan["deepx_ix"] = [i for i in range(plan["deepx"]) if "deepx%02d" % i in only]
     results = []
     exhaustive = []
     for g in plan["gen"]:
@@ -384,12 +602,40 @@ def check(prop, tier):
             exhaustive.append(g)
         for s in r["samples"]:
             ev.sample(s)
-    for i in range(plan["deep"]):
+    for g in plan.get("multi", []):
+        r = run_multi(g, tier, wd)
+        results.append(r)
+        ev.add_v(r["group"], r["merged"], r["nontrivial"], r["v_wall"])
+    xml_counts = {}
+    for cname, members in plan.get("combined", {}).items():
+        if not members:
+            continue
+        r = run_combined(cname, members, tier, wd)
+        results.append(r)
+        for g, part in r["parts"].items():
+            gs = part["g"]
+            if gs:
+                ev.add_tlc(G_GROUPS[g][0], {"distinct": gs["distinct"], "generated": gs["generated"], "depth": gs["depth"], "wall": gs["wall"],
+                                            "replay": [0] * gs["replay"], "coverage": gs.get("coverage")}, "G")
+                if part["n"] == gs["replay"]:
+                    exhaustive.append(g)
+            if g in XML_GROUPS or g.startswith("deepx") or g == "mx":
+                xml_counts[g] = part["n"]
+        ev.add_v(cname + ":" + "+".join(members), r["merged"], r["nontrivial"], r["v_wall"])
+        for sm in r["samples"]:
+            ev.sample(sm)
+    for i in plan.get("deep_ix", range(plan["deep"])):
         r = run_deep(i, tier, wd)
         results.append(r)
         ev.add_v(r["group"], r["merged"], r["nontrivial"], r["v_wall"])
+    for i in plan.get("deepx_ix", range(plan["deepx"])):
+        r = run_deepx(i, tier, wd)
+        results.append(r)
+        ev.add_v(r["group"], r["merged"], r["nontrivial"], r["v_wall"])
     ev.cov["rule"] = ("behaviours = programs enumerated by TLC from MC_Undo (per tracked root kind text / array with nested map / "
-                      "map with nested arrays: every sequence of tracked edits within the bound, every grouping into capture steps "
+                      "map with nested arrays / XML fragment [elements with attributes and children, text nodes with characters and "
+                      "formatting; from the empty fragment and on content prepared by another origin]: "
+                      "every sequence of tracked edits within the bound, every grouping into capture steps "
                       "by ticks / stop, every undo/redo word of the given length at every position, foreign local edits and remote "
                       "edits of replica 2 with delayed delivery) -- sampled per stratum (number of foreign edits) where the group is "
                       "larger than the tier's budget -- plus seeded deep programs; each executed 5 times on the real library and "
@@ -398,6 +644,9 @@ def check(prop, tier):
     ev.cov["exhaustive"] = False
     ev.cov["exhaustive_groups"] = exhaustive
     ev.cov["repeat_per_behaviour"] = REPEAT
+    xml_counts.update({r["group"]: r["merged"]["cnt"]["beh"] for r in results
+                       if r["group"] in XML_GROUPS or r["group"].startswith("deepx")})
+    ev.cov["xml_groups"] = xml_counts
     ev.cov["harness_build_s"] = round(bt, 1)
     ev.assumptions = ["TLC, CommunityModules", "harness adapters and observation functions (obs.rs, codec.rs, ext/undo.rs)",
                       "hook H1 (yrs::verif) reports the item lists faithfully",
@@ -416,11 +665,14 @@ def manifest_entries():
         "replay_cmd_template": "./check replay {path}",
         "engine": "TLC (MC_Undo: program enumeration + design invariants; Trace_Undo: trace validation) + harness ext/undo.rs",
         "level_claimed": {"category": "model_checking",
-                          "text": "bounded: TLC-enumerated undo/redo programs (<= 3 tracked edits x every undo/redo word of length 3 "
-                                  "quick; <= 4-5 edits, <= 2 foreign edits thorough) and seeded deep programs, executed on the real "
-                                  "UndoManager and validated against the inverse-law / isolation specification",
+                          "text": "bounded: TLC-enumerated undo/redo programs over text, array, map and XML scopes (<= 3 tracked edits "
+                                  "x every undo/redo word of length 3 quick; <= 4-5 edits, <= 2 foreign edits thorough) and seeded "
+                                  "deep programs, executed on the real UndoManager and validated against the inverse-law / isolation "
+                                  "specification",
                           "design_ref": "DESIGN.md section 6/C12, section 3.5"},
         "level_note": "inverse law checked wherever no other origin edited a tracked type since the boundary; otherwise isolation "
-                      "predicates only (re-creation position is implementation freedom); XML scopes not covered",
+                      "predicates only (re-creation position is implementation freedom); XML scope = one fragment root with "
+                      "elements (attributes, children), text nodes (characters, one format key), nesting depth <= 3; XML hooks / "
+                      "embeds inside XML text are not generated",
         "technique": "explicit TLA+ specification + TLC + conformance binding (G->X->V)",
     }]
